@@ -6,6 +6,7 @@ import (
 	"go/constant"
 	"go/token"
 	"go/types"
+	"os"
 	"strings"
 )
 
@@ -1309,4 +1310,17 @@ func (c *fdCtx) tabElem(e *ast.IndexExpr) (string, bool) {
 	}
 	c.bind = nil
 	return s, true
+}
+
+// c10DebugObls (dev aid): with CTVERIF_C10_OBL=<substring> set, print the obligations whose key contains it.
+func c10DebugObls(r *Run) {
+	pat := os.Getenv("CTVERIF_C10_OBL")
+	if pat == "" {
+		return
+	}
+	for _, o := range r.Obls {
+		if strings.Contains(o.Key, pat) {
+			fmt.Fprintf(os.Stderr, "OBL ok=%v %s @%s: %s\n", o.OK, o.Key, o.Where, o.Detail)
+		}
+	}
 }
